@@ -164,7 +164,7 @@ func (x *Exec) atLoopHeader(st *State, fr *Frame, h *ssa.BasicBlock) {
 	l := x.loopAt(fr.fn, h)
 	c, invs := x.invariantsFor(fr, l)
 	if os.Getenv("GOVC_DEBUG_LOOPS") != "" {
-		fmt.Fprintf(os.Stderr, "at header of loop %d of %s: cut=%v frames=%d\n", l.ord, fr.fn.Name(), fr.cut[h] != nil, len(st.frames))
+		fmt.Fprintf(os.Stderr, "at header of loop %d of %s: cut=%v frames=%d trace=%v\n", l.ord, fr.fn.Name(), fr.cut[h] != nil, len(st.frames), st.trace)
 	}
 	if cut := fr.cut[h]; cut != nil {
 		// back edge: invariants must be preserved
@@ -782,12 +782,17 @@ func (x *Exec) siteAsserts(st *State, fr *Frame, kind, arg string, bind map[stri
 			for k, v := range bind {
 				env.vars[k] = v
 			}
+			props := x.contract.Props
+			if m := tagRe.FindStringSubmatch(parts[1]); m != nil {
+				props = strings.FieldsFunc(m[1], func(r rune) bool { return r == ' ' || r == ',' })
+				parts[1] = parts[1][len(m[0]):]
+			}
 			t, err := env.EvalBool(parts[1])
 			if err != nil {
 				x.unsupported(st, err.Error())
 				return
 			}
-			x.oblige(st, "site", fmt.Sprintf("%s: %s", strings.TrimSpace(parts[0]), parts[1]), t, token.NoPos, x.contract.Props)
+			x.oblige(st, "site", fmt.Sprintf("%s: %s", strings.TrimSpace(parts[0]), parts[1]), t, token.NoPos, props)
 		}
 	}
 }
